@@ -242,11 +242,11 @@ def cases(tier):
                     continue
                 if k == 3:
                     n3 += 1
-                    if tier == "quick" and n3 % 12:
+                    if tier == "quick" and n3 % 40:
                         continue
                     if tier != "quick" and b == "compiled" and n3 % 4:
                         continue
-                if k == 2 and tier == "quick" and (hash(str(combo)) % 2) and False:
+                if k == 2 and tier == "quick" and (len(out) % 2):
                     continue
                 defs = [list(c) for c in combo]
                 free = [L for L in LOCS if L not in dict(combo)]
